@@ -21,7 +21,7 @@ CLAIMED = {
     "C03": dict(
         technique="state-machine property testing with rapid; invariant oracle (well-formed tree) evaluated over the full depth-4 path closure after every step; watchdog for termination",
         text=("Generated histories (including root removal/rename, rename into a descendant, creation below regular files) run on mem.FS, keyvalue.FS over a plain store, a mount composition with a nested "
-              "mount, and Sub views; after every step the tree invariants I1-I5 are evaluated on every constituent file system over all 121 candidate paths, not only those listings reveal. Sampled exploration."),
+              "mount, and Sub views; after every step the tree invariants I1-I5 are evaluated on every constituent file system over all candidate paths of the case's alphabet (121 or more), not only those listings reveal. Handles -- of files and of directories, read in pages -- stay open across namespace steps; scripted legs build histories around a handle that outlives its path (stale) and around a directory handle paged while its children are removed, renamed or added (dirpage). Sampled exploration."),
         note="termination is observed as 'returned within the watchdog' (twice); removing/renaming the root of a Sub view is not generated; RemoveAll above a mount point is excluded while known finding C03:removeall-above-mountpoint reproduces",
     ),
     "C05": dict(
@@ -32,7 +32,7 @@ CLAIMED = {
     ),
     "C04": dict(
         technique="property-based testing with rapid (boundary construction around io/fs.ValidPath + fuzzed strings) and native coverage-guided go fuzzing in the thorough tier; oracle = error class + unchanged snapshots of every constituent FS",
-        text=("For 11 subjects (mem, keyvalue/plain, nested mounts, Sub(mem), Sub(mount), cache, tar -- healthy, over a truncated archive, and with a cancelled context --, os.FS, Sub over a lenient Open-only FS) in generated start states, every helper is probed with names at the ValidPath boundary, "
+        text=("For 11 subjects (mem, keyvalue/plain, nested mounts, Sub(mem), Sub(mount), cache, tar -- healthy, over a truncated archive, and with a cancelled context --, os.FS, Sub over a lenient Open-only FS) in generated start states, every helper is probed (its other arguments taking degenerate values -- zero time, zero bits, empty data -- a third of the time) with names at the ValidPath boundary, "
               "fuzzed names and valid odd names; invalid names must give ErrInvalid and leave every constituent file system (and the os directory with its sentinel sibling) unchanged; valid names are never refused as invalid "
               "and backslash/colon are literal name bytes. Thorough adds a 45 s native fuzz campaign (~1M executions) over (subject, helper, position, name bytes)."),
         note="validity oracle is the standard library; 'no OS path reached the kernel' is approximated by directory + sentinel snapshots; ErrNotImplemented accepted where the helper is unsupported for valid names too",
@@ -45,7 +45,7 @@ CLAIMED = {
     ),
     "C06": dict(
         technique="twin-world state-machine property testing with rapid against an independent reference router; model-based AddMount sequences; harness-gated concurrent AddMount (plus -race leg); fault enumeration on cross-mount rename",
-        text=("Generated mount configurations (0-4 points incl. nested and string-prefix look-alikes) and histories: every op is routed by a harness-side longest-whole-element-prefix router and executed through mount.FS in one world and "
+        text=("Generated mount configurations (0-4 points incl. nested and string-prefix look-alikes; a quarter of them entered through a second, outer mount.FS layer) and histories: every op is routed by a harness-side longest-whole-element-prefix router and executed through mount.FS in one world and "
               "directly on the selected file system in the other; results and the snapshots of all constituent file systems must match, Mount() is re-evaluated under sampled table iteration orders, cross-mount renames are judged by a "
               "before/after predicate, AddMount sequences by a model, concurrent AddMount of one point (every caller with its own file system; exactly one wins and ITS file system is the one mounted afterwards) by a gate that forces the check-then-store window, and a cross-mount rename is repeated with a fault injected at every call index of the destination and source mounts (either it happened or both trees are as before). Sampled exploration; the window forcing is deterministic for the gated call only."),
         note="iteration orders of the mount table are sampled; losing an existing destination file when the cross-mount copy fails is known finding C06:cross-rename-fault-loses-existing-destination",
@@ -91,7 +91,7 @@ CLAIMED = {
     ),
     "C10": dict(
         technique="model-based (state-machine) property testing with rapid; differential oracle = twin handles/calls on an identical source tree; call-counting wrapper on the source for the 'no second read' clause",
-        text=("Generated source trees, RetainData policies, cache-store kinds (full mem.FS / OpenFile+Mkdir only) and source handle flavours (with/without Seek); generated sequences of opens into slots, reads, seeks, stats, paged directory reads and closes are mirrored on a twin source; "
+        text=("Generated source trees, RetainData policies, cache-store kinds (full mem.FS / OpenFile+Mkdir only) and source handle flavours (with/without Seek); generated sequences of opens into slots (valid names, missing names and invalid spellings of served names), reads, seeks, stats, paged directory reads and closes are mirrored on a twin source; "
               "a counting wrapper checks that once a retained file is cached neither later opens nor reads through their handles reach the source. Sampled exploration."),
         note="the source is immutable during a case (the cache's documented precondition); modification times are not compared",
     ),
